@@ -175,6 +175,16 @@ def compile_schema(spec):
     return got
 
 
+def validate(schema, tree, ns):
+    """True/False from the trusted validator; None when the validator itself fails (xmlschema lets an OverflowError
+    of a date class escape while trying union members, e.g. '100000000000000000000' against xs:gYear): such
+    instances are counted (class instance:validator-error) and not judged"""
+    try:
+        return schema.is_valid(tree, namespaces=ns)
+    except (OverflowError, ArithmeticError):
+        return None
+
+
 def namespaces_of(spec) -> dict:
     ns = {'xs': XS, 'xsi': XSI}
     if spec['tns']:
@@ -462,12 +472,14 @@ def judge_nodes(case, rec: Recorder | None = None) -> list[Disc]:
             rec.cls(c)
     for ii, inst in enumerate(case['instances']):
         b = Built(spec, inst, case['tree'], False)
-        valid = schema.is_valid(b.tree, namespaces=ns)
+        valid = validate(schema, b.tree, ns)
         if rec is not None:
             rec.cls('instance')
-            rec.cls('instance:valid' if valid else 'instance:invalid')
+            rec.cls('instance:valid' if valid else 'instance:invalid' if valid is False else 'instance:validator-error')
             for f in b.flags:
                 rec.cls('instance:' + f)
+        if valid is None:
+            continue
         if not valid:
             if rec is not None and len(rec.notes) < 5:
                 rec.notes.append('invalid instance (generator bug): ' +
@@ -768,7 +780,7 @@ def judge_select(case, rec: Recorder | None = None) -> list[Disc]:
     shash = h64(spec) if rec is not None else 0
     for ii, inst in enumerate(case['instances']):
         A = Built(spec, inst, case['tree'], False)      # evaluated with the schema
-        if not schema.is_valid(A.tree, namespaces=ns):
+        if not validate(schema, A.tree, ns):
             continue
         B = Built(spec, inst, case['tree'], True)       # defaults written out, evaluated without the schema
         ihash = h64(inst) if rec is not None else 0
@@ -841,7 +853,7 @@ def judge_reapply(case, rec: Recorder | None = None) -> list[Disc]:
     ns = ev.ns
     for ii, inst in enumerate(case['instances'][:2]):
         b = Built(spec, inst, case['tree'], False)
-        if not schema.is_valid(b.tree, namespaces=ns):
+        if not validate(schema, b.tree, ns):
             continue
         pidx = ii % 3
         # nodes with a non-empty typed value of a non-union type (unions and empty values have their own buckets
